@@ -56,12 +56,12 @@ def run_variant(args):
         if st != "ok":
             out["status"] = st
             return out
-        mod = importlib.import_module(f"rules.{prop.lower()}")
+        from rules import common
         col = core.Collector(prop)
         err = None
         try:
             repo = core.Repo(d)
-            mod.check(repo, col, "quick")
+            common.run_all(prop, repo, col, "quick")
         except core.AnalysisError as e:
             err = f"analysis-error: {e}"
         except Exception as e:
